@@ -30,8 +30,7 @@ K_MONO = 0
 # the free gradient, cond(A) <= 1e4 by construction): f - f* <= ~|g_free|^2/(2 sigma_min^2) ~ 1e-16*cond^2/|A|^2, i.e.
 # <= ~1e-9 relative in the worst generated case; worst observed 1.1e-11 (thorough, 101k problems, seed 1) and 2e-16
 # (quick seeds 1-3).  LIN_RTOL = 1e-7: >= 100x the analytical worst case, ~1e4x the observed one.
-LIN_RTOL = 1e-7 (>=100x).
-LIN_RTOL = 1e-6
+LIN_RTOL = 1e-7
 
 
 class Recorder:
